@@ -88,8 +88,9 @@ def _factors(problem, et, tier):
             "amp": [1.0, 1e-13],
         }
     timo, dim = BEAM[problem]
-    maps = {1: ["identity", "generic"], 2: ["identity", "generic", "alongy", "reflection"],
-            3: ["identity", "generic", "alongy", "alongz", "reflection"]}[dim]
+    # "negx0": the member lies ON the x axis and points towards -x (the mesh of such a member is embedded in one dimension)
+    maps = {1: ["identity", "generic", "negx0"], 2: ["identity", "generic", "alongy", "reflection", "negx0"],
+            3: ["identity", "generic", "alongy", "alongz", "reflection", "negx0"]}[dim]
     F = {
         "mesh": _templates(et, 1, tier, beam=True),
         "map": maps + (["generic2"] if th and dim > 1 else []),
@@ -542,6 +543,8 @@ def _beam_map(name, dim):
     off[dim:] = 0.0
     if name == "identity":
         return np.eye(3), off
+    if name == "negx0":
+        return np.diag([-1.0, -1.0, 1.0]), np.array([0.2, 0.0, 0.0])  # exact: sin(pi) would leave y ~ 1e-16 and a mesh "in 2D"
     if name == "reflection":
         return Z.reflection(dim), off
     if name == "alongy":
